@@ -78,6 +78,7 @@ func (c *Conn) CloseRead(ctx context.Context) context.Context {
 		defer close(c.closeReadDone)
 		defer cancel()
 		defer c.close()
+		simYield("closeread.start", c)
 		_, _, err := c.Reader(ctx)
 		if err == nil && c.casClosing() {
 			// Not c.Close as it waits for this goroutine to exit.
@@ -238,6 +239,7 @@ func (c *Conn) readFrameHeader(ctx context.Context) (header, error) {
 	}
 
 	h, err := readFrameHeader(c.br, c.readHeaderBuf[:])
+	simYield("rf.header", c)
 	if err != nil {
 		select {
 		case <-c.closed:
@@ -266,6 +268,7 @@ func (c *Conn) readFramePayload(ctx context.Context, p []byte) (int, error) {
 	}
 
 	n, err := io.ReadFull(c.br, p)
+	simYield("rf.payload", c)
 	if err != nil {
 		select {
 		case <-c.closed:
@@ -339,7 +342,9 @@ func (c *Conn) handleControl(ctx context.Context, h header) (err error) {
 
 	err = fmt.Errorf("received close frame: %w", ce)
 	c.writeClose(ce.Code, ce.Reason)
+	simYield("hc.closing.1", c)
 	c.readMu.unlock()
+	simYield("hc.closing.2", c)
 	c.close()
 	return err
 }
@@ -418,6 +423,7 @@ func (mr *msgReader) Read(p []byte) (n int, err error) {
 	defer mr.c.readMu.unlock()
 
 	n, err = mr.limitReader.Read(p)
+	simYield("mr.read.ret", mr.c)
 	// mr.dict is nil if the connection was closed during the read above, which
 	// happens when a close frame is received between the fragments of a message.
 	if mr.flate && mr.flateContextTakeover() && mr.dict != nil {
